@@ -62,8 +62,6 @@ def extract(ctx):
     t = rw.sub(t, r'tbb::detail::log2\(', 'tbb_log2(', 1, 1, name='ns-strip')
     t = rw.fcasts(t, TY)
     out.append(t)
-    if not re.search(r'size_type bucket = hash_key % my_bucket_count\.load\(std::memory_order_acquire\);', load(UB)):
-        raise ExtractionBreak('prepare_bucket no longer computes hash_key % my_bucket_count')
     common.write(ctx, 'sokey.inc', '\n'.join(out) + '\n')
     # bucket-count writers
     out = []
@@ -144,8 +142,8 @@ def extract_solist(ctx, sliced, fired):
     out = []
     s = slice_block(UB, r'std::pair<value_node_ptr, bool> search_after\( node_ptr& prev, sokey_type order_key, const key_type& key \)')
     sliced.append('%s:%d search_after' % (UB, s.line))
-    t = key_calls(rw, s.text, 1)
-    t = node_calls(rw, t, 2)
+    t = key_calls(rw, s.text, 0)
+    t = node_calls(rw, t, 1)
     t = rw.sub(t, r'(?<!& )\bprev\b', '(*prev)', 1, name='ref-param')
     t = rw.sub(t, r'std::pair<value_node_ptr, bool> search_after\( node_ptr& prev, sokey_type order_key, const key_type& key \)',
                'struct sres cub_search_after(struct cub* self, node_ptr* prev, sokey_type order_key, key_type key)', 1, 1, name='sig')
@@ -185,12 +183,309 @@ def extract_solist(ctx, sliced, fired):
     t = tag_loops(t, 'insert', rw, expect=1)
     out.append(t)
     common.write(ctx, 'insert.inc', '\n'.join(out) + '\n')
+
+    # ---- insert_dummy_node ----
+    s = slice_block(UB, r'node_ptr insert_dummy_node\( node_ptr parent_dummy_node, sokey_type order_key \)')
+    sliced.append('%s:%d insert_dummy_node' % (UB, s.line))
+    t = rw.sub(s.text, r'node_ptr insert_dummy_node\( node_ptr parent_dummy_node, sokey_type order_key \)',
+               'node_ptr cub_insert_dummy_node(struct cub* self, node_ptr parent_dummy_node, sokey_type order_key)', 1, 1, name='sig')
+    t = node_calls(rw, t, 1)
+    t = rw.sub(t, r'\bcreate_dummy_node\(', 'STUB_create_dummy_node(self, ', 1, 1, name='callee stub (node factory)')
+    t = rw.sub(t, r'\bdestroy_node\(', 'STUB_destroy_node(self, ', 0, name='callee stub (node disposal)')
+    t = rw.sub(t, r'\btry_insert\(', 'cub_try_insert(', 0, name='method')
+    t = rw.std(t)
+    t = tag_loops(t, 'dummy', rw, expect=2)
+    common.write(ctx, 'dummy.inc', out[1] + '\n' + t + '\n')      # try_insert + insert_dummy_node
+    # ---- prepare_bucket / get_bucket / init_bucket ----
+    outb = []
+    for name, sig, csig in (
+            ('init_bucket', r'void init_bucket\( size_type bucket \)', 'void cub_init_bucket(struct cub* self, size_type bucket)'),
+            ('get_bucket', r'node_ptr get_bucket\( size_type bucket_index \)', 'node_ptr cub_get_bucket(struct cub* self, size_type bucket_index)'),
+            ('prepare_bucket', r'node_ptr prepare_bucket\( sokey_type hash_key \)', 'node_ptr cub_prepare_bucket(struct cub* self, sokey_type hash_key)')):
+        s = slice_block(UB, sig)
+        sliced.append('%s:%d %s' % (UB, s.line, name))
+        t = rw.sub(s.text, sig, csig, 1, 1, name='sig')
+        t = rw.atomics(t, ['my_segments', 'my_bucket_count'], 1)
+        t = rw.sub(t, r'(?<![\w.>])my_segments\[([^\]]*)\]', r'SEG_WORD(self, \1)', 0, name='segment table entry')
+        t = rw.sub(t, r'(?<![\w.>])my_bucket_count\b', 'BC_WORD(self)', 0, name='field')
+        t = rw.sub(t, r'&my_head\b', 'CUB_HEAD(self)', 0, name='the list head node')
+        if name == 'init_bucket':
+            t = rw.sub(t, r'(?<![\w.>])init_bucket\(', 'STUB_init_bucket(self, ', 1, 1, name='recursive call -> the function\'s own contract (parent index smaller: job sokey.order)')
+            t = rw.sub(t, r'\bget_parent\(', 'STUB_get_parent(', 1, 1, name='callee stub (proved in sokey.order)')
+            t = rw.sub(t, r'\bsplit_order_key_dummy\(', 'STUB_split_order_key_dummy(', 1, 1, name='callee stub (proved in sokey.order)')
+            t = rw.sub(t, r'\binsert_dummy_node\(', 'STUB_insert_dummy_node(self, ', 1, 1, name='callee stub (proved in solist.dummy)')
+        else:
+            t = rw.sub(t, r'(?<![\w.>])(init_bucket|get_bucket)\(', r'cub_\1(self, ', 1, 1, name='method')
+        t = rw.asserts(t, 0)
+        t = rw.std(t)
+        t = rw.number_sites(t, name, by_kind=True)
+        t = tag_loops(t, name, rw)
+        outb.append(t)
+    common.write(ctx, 'bucket.inc', '\n'.join(outb[:2]) + '\n')
+    common.write(ctx, 'prepare.inc', outb[2] + '\n')
     fired['solist'] = rw.fired
+
+
+def extract_range(ctx, sliced, fired):
+    """const_range_type: the splittable range of the unordered containers + first_value_node"""
+    rw = Rewriter('range')
+    CR = r'class const_range_type \{'
+    out = []
+    s = slice_block(UB, r'value_node_ptr first_value_node\( node_ptr first_node \) const')
+    sliced.append('%s:%d first_value_node' % (UB, s.line))
+    t = rw.sub(s.text, r'value_node_ptr first_value_node\( node_ptr first_node \) const', 'value_node_ptr cub_first_value_node(struct cub* self, node_ptr first_node)', 1, 1, name='sig')
+    t = node_calls(rw, t, 1)
+    t = rw.casts(t, 0)
+    t = rw.std(t)
+    t = tag_loops(t, 'fvn', rw, expect=1)
+    out.append(t)
+    common.write(ctx, 'fvn.inc', t + '\n')
+    FIELDS = ['my_begin_node', 'my_end_node', 'my_midpoint_node']
+
+    def conv(t):
+        t = node_calls(rw, t, 0)
+        t = rw.sub(t, r'my_instance\.first_value_node\(', 'FVN(self->my_instance, ', 0, name='method of the container (first_value_node, sliced)')
+        t = rw.sub(t, r'my_instance\.get_parent\(', 'STUB_get_parent(', 0, name='callee stub (proved in sokey.order)')
+        t = rw.atomics(t, ['my_segments', 'my_bucket_count'], 0, obj=r'my_instance\.')
+        t = rw.sub(t, r'my_instance\.my_segments\[([^\]]*)\]', r'SEG_WORD(self->my_instance, \1)', 0, name='segment table entry')
+        t = rw.sub(t, r'my_instance\.my_bucket_count\b', 'BC_WORD(self->my_instance)', 0, name='field')
+        t = rw.sub(t, r'\breverse_bits\(', 'STUB_reverse_bits(', 0, name='callee stub (proved in rev.bits)')
+        t = rw.sub(t, r'(?<![\w.>])(%s)\b' % '|'.join(FIELDS), r'self->\1', 0, name='field')
+        t = rw.sub(t, r'\brange\.(?=my_)', 'range->', 0, name='ref-param')
+        t = rw.sub(t, r'(?<![\w.>])(empty|set_midpoint)\(\)', r'crange_\1(self)', 0, name='method')
+        t = rw.sub(t, r'\brange\.(empty|set_midpoint)\(\)', r'crange_\1(range)', 0, name='method on the ref-param')
+        t = rw.sub(t, r'\biterator\(', 'ITER(', 0, name='iterator construction from a node')
+        t = rw.asserts(t, 0)
+        t = rw.fcasts(t, TY)
+        t = rw.casts(t, 0)
+        t = rw.number_sites(t, 'range', by_kind=True)
+        return rw.std(t)
+    protos = []
+    for name, sig, csig in (
+            ('empty', r'bool empty\(\) const', 'bool crange_empty(struct crange* self)'),
+            ('is_divisible', r'bool is_divisible\(\) const', 'bool crange_is_divisible(struct crange* self)'),
+            ('set_midpoint', r'void set_midpoint\(\) const', 'void crange_set_midpoint(struct crange* self)'),
+            ('begin', r'iterator begin\(\) const', 'node_ptr crange_begin(struct crange* self)'),
+            ('end', r'iterator end\(\) const', 'node_ptr crange_end(struct crange* self)')):
+        s = slice_block(UB, sig, within=CR)
+        sliced.append('%s:%d const_range_type::%s' % (UB, s.line, name))
+        t = rw.sub(s.text, sig, csig, 1, 1, name='sig')
+        t = conv(t)
+        if name == 'set_midpoint':
+            t = tag_loops(t, 'midpoint', rw, expect=1)
+        protos.append(csig + ';')
+        out.append(t)
+    # the splitting constructor and the constructor from a table: initialiser lists -> assignments in DECLARED member order
+    decl = slice_block(UB, CR).text
+    order = [m.group(1) for m in re.finditer(r'\b(my_instance|my_begin_node|my_end_node|my_midpoint_node)\s*;', decl)]
+    if order[:3] != ['my_instance', 'my_begin_node', 'my_end_node']:
+        raise ExtractionBreak('const_range_type: member declaration order changed: %r' % order)
+    for name, sig, csig in (
+            ('split ctor', r'const_range_type\( const_range_type& range, split \)', 'void crange_split_ctor(struct crange* self, struct crange* range)'),
+            ('table ctor', r'const_range_type\( const concurrent_unordered_base& table \)', 'void crange_table_ctor(struct crange* self, struct cub* table)')):
+        s = slice_block(UB, sig, within=CR, ctor=True)
+        sliced.append('%s:%d const_range_type %s' % (UB, s.line, name))
+        txt = s.text
+        m = cxx2c.mask(txt)
+        colon = m.index(':', m.index(')'))
+        b = m.index('{', txt.rindex(')', 0, m.rindex('{')))   # the body brace (after the last initialiser)
+        items = []
+        for it in cxx2c.split_args(txt[colon + 1:b]):
+            im = re.match(r'\s*(\w+)\s*\((.*)\)\s*$', it, re.S)
+            if not im:
+                raise ExtractionBreak('const_range_type %s: cannot parse initialiser %r' % (name, it))
+            items.append((im.group(1), im.group(2).strip()))
+        items.sort(key=lambda x: order.index(x[0]))
+        rw.fired['ctor-init-list->assignments(declared order)'] = rw.fired.get('ctor-init-list->assignments(declared order)', 0) + len(items)
+        body = '{\n' + ''.join('    %s = %s;\n' % (k, v) for k, v in items) + txt[b + 1:]
+        body = rw.sub(body, r'\brange\.my_instance\b', 'range->my_instance', 0, name='ref-param')
+        body = rw.sub(body, r'const_cast<node_ptr>\(&table\.my_head\)', 'CUB_HEAD(table)', 0, name='the list head node')
+        body = rw.sub(body, r'(?<![\w.>])my_instance = my_instance\.first_value_node', 'BAD', 0, 0, name='guard')
+        body = rw.sub(body, r'(?<![\w.>])my_instance = ', 'self->my_instance = ', 1, 1, name='field (reference member -> pointer)')
+        body = rw.sub(body, r'self->my_instance = table;', 'self->my_instance = table;', 0, name='ref-param')
+        t = csig + ' ' + conv(body)
+        out.append(t)
+    common.write(ctx, 'range.inc', '\n'.join(protos) + '\n' + '\n'.join(out[1:]) + '\n')
+    fired['range'] = rw.fired
+
+
+def extract_find(ctx, sliced, fired):
+    """lookups and traversal: internal_find, internal_equal_range, solist_iterator::operator++ (first_value_node comes from extract_range)"""
+    rw = Rewriter('find')
+    out = []
+    s = slice_block(UB, r'solist_iterator& operator\+\+\(\)', within=r'class solist_iterator \{')
+    sliced.append('%s:%d solist_iterator::operator++' % (UB, s.line))
+    t = rw.sub(s.text, r'solist_iterator& operator\+\+\(\)', 'void solist_iterator_preinc(struct solist_iterator* self)', 1, 1, name='sig')
+    t = node_calls(rw, t, 1)
+    t = rw.sub(t, r'\bauto next_node\b', 'node_ptr next_node', 1, 1, name='auto')
+    t = rw.sub(t, r'(?<![\w.>])my_node_ptr\b', 'self->my_node_ptr', 2, name='field')
+    t = rw.sub(t, r'return \*this;', 'return;', 1, 1, name='return *this')
+    t = rw.casts(t, 0)
+    t = rw.std(t)
+    t = tag_loops(t, 'inc', rw, expect=1)
+    out.append(t)
+    for name, sig, csig, nl in (
+            ('internal_find', r'value_node_ptr internal_find\( const K& key \)', 'value_node_ptr cub_internal_find(struct cub* self, key_type key)', 1),
+            ('internal_equal_range', r'std::pair<value_node_ptr, value_node_ptr> internal_equal_range\( const K& key \)', 'struct vpair cub_internal_equal_range(struct cub* self, key_type key)', 2)):
+        s = slice_block(UB, sig)
+        sliced.append('%s:%d %s' % (UB, s.line, name))
+        t = rw.sub(s.text, sig, csig, 1, 1, name='sig')
+        t = key_calls(rw, t, 0, 1)
+        t = node_calls(rw, t, 1)
+        t = rw.sub(t, r'\bprepare_bucket\(', 'STUB_prepare_bucket(self, ', 1, 1, name='callee stub (proved in solist.bucket)')
+        t = rw.sub(t, r'\bsplit_order_key_regular\(', 'STUB_split_order_key_regular(', 1, 1, name='callee stub (proved in sokey.order)')
+        t = rw.sub(t, r'(?<![\w.>])first_value_node\(', 'cub_first_value_node(self, ', 0, name='method (sliced)')
+        t = rw.sub(t, r'std::make_pair\(', '(struct vpair){', 0, name='make_pair -> compound literal')
+        t = rw.sub(t, r'(\(struct vpair\)\{[^;]*)\);', r'\1};', 0, name='make_pair -> compound literal (close)')
+        t = rw.sub(t, r'return \{([^{};]*)\};', r'return (struct vpair){\1};', 0, name='braced return -> compound literal')
+        t = rw.casts(t, 0)
+        t = rw.fcasts(t, TY)
+        t = rw.std(t)
+        t = tag_loops(t, name.replace('internal_', ''), rw, expect=nl)
+        out.append(t)
+    common.write(ctx, 'find.inc', '\n'.join(out) + '\n')
+    fired['find'] = rw.fired
+
+
+SK = 'include/oneapi/tbb/detail/_concurrent_skip_list.h'
+SNODE_METHODS = ['next', 'set_next', 'height', 'index_number', 'set_index_number']
+
+
+def snode_calls(rw, t, minc):
+    """X->m(args) on skip list nodes -> snode_m(X[, args]); X->atomic_next(L).compare_exchange_strong(e, d) -> a CAS on the word"""
+    def cas(m, a):
+        return 'ATOMIC_CAS(SNODE_NEXT_WORD(%s, %s), &(%s), %s)' % (m.group('o'), m.group('l'), a[0], a[1])
+    t = rw.call(t, r'(?P<o>\b\w+)->atomic_next\((?P<l>[^()]*)\)\.compare_exchange_strong', cas, 0, name='atomic_next(level).compare_exchange_strong -> ATOMIC_CAS on the level word')
+
+    def fn(m, a):
+        a = [x for x in a if x != '']
+        return 'snode_%s(%s)' % (m.group('m'), ', '.join([m.group('o')] + a))
+    return rw.call(t, r'(?P<o>\b\w+)->(?P<m>%s)' % '|'.join(SNODE_METHODS), fn, minc, name='skip node accessor call')
+
+
+def extract_skip(ctx, sliced, fired):
+    rw = Rewriter('skiplist')
+    NC = r'class skip_list_node \{'
+    out = []
+    for name, sig, csig in (
+            ('height', r'size_type height\(\) const', 'static size_type snode_height(node_ptr self)'),
+            ('index_number', r'size_type index_number\(\) const', 'static size_type snode_index_number(node_ptr self)'),
+            ('set_index_number', r'void set_index_number\( size_type index_num \)', 'static void snode_set_index_number(node_ptr self, size_type index_num)'),
+            ('next', r'node_ptr next\( size_type level \) const', 'static node_ptr snode_next(node_ptr self, size_type level)'),
+            ('set_next', r'void set_next\( size_type level, node_ptr n \)', 'static void snode_set_next(node_ptr self, size_type level, node_ptr n)')):
+        s = slice_block(SK, sig, within=NC)
+        sliced.append('%s:%d skip_list_node::%s' % (SK, s.line, name))
+        t = rw.sub(s.text, sig, csig, 1, 1, name='sig')
+        t = rw.sub(t, r'get_atomic_next\(level\)\.load\([^()]*\)', 'ATOMIC_LOAD(SNODE_NEXT_WORD(self, level))', 0, name='atomic load of the level word')
+        t = rw.sub(t, r'get_atomic_next\(level\)\.store\((\w+), [^()]*\);', r'ATOMIC_STORE(SNODE_NEXT_WORD(self, level), \1);', 0, name='atomic store to the level word')
+        t = rw.sub(t, r'\bmy_height\b', 'SNODE_HEIGHT(self)', 0, name='field')
+        t = rw.sub(t, r'\bmy_index_number = (\w+);', r'SNODE_SET_INDEX(self, \1);', 0, name='field write')
+        t = rw.sub(t, r'\bmy_index_number\b', 'SNODE_INDEX(self)', 0, name='field')
+        t = snode_calls(rw, t, 0)
+        t = rw.asserts(t, 0)
+        t = rw.std(t)
+        t = rw.number_sites(t, 'snode_' + name, by_kind=True)
+        out.append(t)
+    common.write(ctx, 'snodes.inc', '\n'.join(out) + '\n')
+
+    def body_rules(t):
+        t = rw.sub(t, r'\bcmp\(', 'CMP(cmp, ', 0, name='comparator object call')
+        t = rw.sub(t, r'\bmy_compare\(', 'LESS(', 0, name='key_compare call')
+        t = rw.sub(t, r'\bget_key\(', 'GET_KEY(', 0, name='key of a node')
+        t = snode_calls(rw, t, 0)
+        t = rw.asserts(t, 0)
+        t = rw.casts(t, 0)
+        return rw.std(t)
+    out = []
+    s = slice_block(SK, r'bool found\( node_ptr node, const K& key \) const')
+    sliced.append('%s:%d found' % (SK, s.line))
+    t = rw.sub(s.text, r'bool found\( node_ptr node, const K& key \) const', 'static bool csl_found(struct csl* self, node_ptr node, key_type key)', 1, 1, name='sig')
+    out.append(body_rules(t))
+    for nth, cname, third in ((0, 'csl_find_position_key', 'key_type key'), (1, 'csl_find_position_node', 'node_ptr node')):
+        s = slice_block(SK, r'node_ptr internal_find_position\( size_type level, node_ptr& prev,', nth=nth)
+        sliced.append('%s:%d internal_find_position (%s overload)' % (SK, s.line, 'key' if nth == 0 else 'node'))
+        t = s.text
+        t = snode_calls(rw, t, 1)
+        t = rw.sub(t, r'(?<!& )\bprev\b', '(*prev)', 1, name='ref-param')
+        t = rw.sub(t, r'(?s)node_ptr internal_find_position\( size_type level, node_ptr& prev,.*?const Comparator& cmp \) const',
+                   'node_ptr %s(struct csl* self, size_type level, node_ptr* prev, %s, int cmp)' % (cname, third), 1, 1, name='sig (comparator object -> its tag)')
+        t = body_rules(t)
+        t = tag_loops(t, 'fpk' if nth == 0 else 'fpn', rw, expect=1)
+        out.append(t)
+    common.write(ctx, 'skipfound.inc', out[0] + '\n')
+    common.write(ctx, 'skipfind.inc', '\n'.join(out[1:]) + '\n')
+    # fill_prev_curr_arrays
+    s = slice_block(SK, r'void fill_prev_curr_arrays\(array_type& prev_nodes, array_type& curr_nodes, node_ptr node, const key_type& key,')
+    sliced.append('%s:%d fill_prev_curr_arrays' % (SK, s.line))
+    t = rw.sub(s.text, r'(?s)void fill_prev_curr_arrays\(array_type& prev_nodes, array_type& curr_nodes, node_ptr node, const key_type& key,\s*const Comparator& cmp, node_ptr head \)',
+               'void csl_fill_prev_curr_arrays(struct csl* self, node_ptr* prev_nodes, node_ptr* curr_nodes, node_ptr node, key_type key, int cmp, node_ptr head)', 1, 1, name='sig (std::array& -> pointer)')
+    t = rw.sub(t, r'std::fill\((\w+)\.begin\(\) \+ (\w+), \1\.begin\(\) \+ (\w+), (\w+)\);', r'ARR_FILL(\1, \2, \3, \4);', 0, name='std::fill over an index range')
+    t = rw.sub(t, r'\b(prev_nodes|curr_nodes)\[([^\]]*)\] = ([^;]*);', r'ARR_WR(\1, \2, \3);', 0, name='array element write')
+    t = rw.sub(t, r'\binternal_find_position\(level - 1, prev,', 'STUB_find_position_key(self, level - 1, &prev,', 1, 1, name='callee stub (proved in skip.find_position) + ref-param')
+    t = rw.atomics(t, ['my_max_height'], 1)
+    t = rw.sub(t, r'(?<![\w.>])my_max_height\b', 'self->my_max_height', 1, name='field')
+    t = body_rules(t)
+    t = rw.number_sites(t, 'fill', by_kind=True)
+    t = tag_loops(t, 'fill', rw, expect=1)
+    common.write(ctx, 'skipfill.inc', t + '\n')
+    # internal_insert_node
+    s = slice_block(SK, r'std::pair<iterator, bool> internal_insert_node\( node_ptr new_node \)')
+    sliced.append('%s:%d internal_insert_node' % (SK, s.line))
+    t = rw.sub(s.text, r'std::pair<iterator, bool> internal_insert_node\( node_ptr new_node \)', 'struct ires csl_internal_insert_node(struct csl* self, node_ptr new_node)', 1, 1, name='sig')
+    t = rw.sub(t, r'array_type (prev_nodes|curr_nodes);', r'node_ptr \1[max_level];', 2, 2, name='std::array -> C array')
+    t = rw.sub(t, r'auto compare = select_comparator\(std::integral_constant<bool, allow_multimapping>\{\}\);', 'int compare = SELECT_COMPARATOR(allow_multimapping);', 1, 1, name='comparator object -> its tag (less / not_greater)')
+    t = rw.sub(t, r'\bcreate_head_if_necessary\(\)', 'STUB_create_head_if_necessary(self)', 1, 1, name='callee stub (proved in skip.head)')
+    t = rw.sub(t, r'\bfill_prev_curr_arrays\(', 'STUB_fill_prev_curr_arrays(self, ', 1, 1, name='callee stub (proved in skip.fill)')
+    t = rw.sub(t, r'curr_nodes\[lev\] = internal_find_position\(lev, prev_nodes\[lev\], new_node, compare\);', 'ARR_WR(curr_nodes, lev, STUB_find_position_node(self, lev, ARR_REF(prev_nodes, lev), new_node, compare));', 0, name='callee stub (proved in skip.find_position) + ref-param')
+    t = rw.sub(t, r'\bfound\(', 'csl_found(self, ', 0, name='method')
+    t = rw.sub(t, r'return std::pair<iterator, bool>\(iterator\((\w+)\), (true|false)\);', r'return (struct ires){\1, \2};', 2, name='pair<iterator,bool> -> struct')
+    t = rw.sub(t, r'(?<![&\w] )(?<!&)\b(prev_nodes|curr_nodes)\[([^\]]*)\](?! =)', r'ARR_RD(\1, \2)', 0, name='array element read')
+    t = rw.sub(t, r'\+\+my_size;', 'ATOMIC_PREINC(my_size);', 0, name='atomic ++')
+    t = rw.atomics(t, ['my_max_height'], 1)
+    t = rw.sub(t, r'(?<![\w.>])(my_max_height|my_size)\b', r'self->\1', 1, name='field')
+    t = body_rules(t)
+    t = rw.number_sites(t, 'ins', by_kind=True)
+    t = tag_loops(t, 'ins', rw, expect=5)
+    common.write(ctx, 'skipins.inc', t + '\n')
+    # head creation
+    outh = []
+    for name, sig, csig in (('get_head', r'node_ptr get_head\(\) const', 'static node_ptr csl_get_head(struct csl* self)'),
+                            ('create_head_if_necessary', r'node_ptr create_head_if_necessary\(\)', 'node_ptr csl_create_head_if_necessary(struct csl* self)')):
+        s = slice_block(SK, sig)
+        sliced.append('%s:%d %s' % (SK, s.line, name))
+        t = rw.sub(s.text, sig, csig, 1, 1, name='sig')
+        t = rw.sub(t, r'(?<![\w.>])get_head\(\)', 'csl_get_head(self)', 0, name='method')
+        t = rw.sub(t, r'\bcreate_head_node\(\)', 'STUB_create_head_node(self)', 0, name='callee stub (node factory)')
+        t = rw.sub(t, r'\bdelete_node\(', 'STUB_delete_node(self, ', 0, name='callee stub (node disposal)')
+        t = rw.atomics(t, ['my_head_ptr'], 1)
+        t = rw.sub(t, r'(?<![\w.>])my_head_ptr\b', 'self->my_head_ptr', 1, name='field')
+        t = rw.asserts(t, 0)
+        t = rw.std(t)
+        t = rw.number_sites(t, name, by_kind=True)
+        outh.append(t)
+    common.write(ctx, 'skiphead.inc', '\n'.join(outh) + '\n')
+    # level generator
+    s = slice_block(SK, r'std::size_t operator\(\)\(\)', within=r'class concurrent_geometric_level_generator \{')
+    sliced.append('%s:%d concurrent_geometric_level_generator::operator()' % (SK, s.line))
+    t = rw.sub(s.text, r'std::size_t operator\(\)\(\)', 'static size_t level_generator_call(void)', 1, 1, name='sig')
+    t = rw.sub(t, r'engines\.local\(\)\(\)', 'STUB_minstd_rand()', 1, 1, name='callee stub (std::minstd_rand: a value in [1, 2^31-2])')
+    t = rw.sub(t, r'tbb::detail::log2\(', 'tbb_log2(', 1, 1, name='ns-strip')
+    t = rw.asserts(t, 0)
+    t = rw.fcasts(t, ['std::size_t'])
+    t = rw.std(t)
+    m = re.search(r'static constexpr std::size_t max_level = MaxLevel;', load(SK))
+    if not m or not re.search(r'static_assert\(max_level == 32,', load(SK)):
+        raise ExtractionBreak('level generator: max_level is no longer pinned to 32')
+    common.write(ctx, 'skiplevel.inc', t + '\n')
+    fired['skiplist'] = rw.fired
 
 
 def build(ctx):
     sliced, fired = extract(ctx)
     extract_solist(ctx, sliced, fired)
+    extract_range(ctx, sliced, fired)
+    extract_find(ctx, sliced, fired)
+    extract_skip(ctx, sliced, fired)
     C = os.path.join(HERE, 'c12.c')
     jobs = [
         Job('rev.bits', C, 'h_reverse', route='LW', unwind=10, target='machine_reverse_bits<size_t> + reverse_byte + byte_table', source=MH),
@@ -199,17 +494,75 @@ def build(ctx):
         Job('bcount.round_up', C, 'h_round_up', route='LF', target='round_up_to_power_of_two', source=UB),
         Job('bcount.rehash', C, 'h_rehash', route='RG', loops=True, target='concurrent_unordered_base::rehash', source=UB),
         Job('bcount.adjust', C, 'h_adjust', route='RG', target='concurrent_unordered_base::adjust_table_size [IEEE float]', source=UB),
-        Job('solist.insert', C, 'h_insert', route='RG', loops=True, nloops=2, defines=['C12_LIST', 'L_INSERT'], timeout=300,
-            target='concurrent_unordered_base::internal_insert + search_after + try_insert + list_node::next/set_next/try_set_next (any list, any number of threads, unique and multi)', source=UB),
+    ] + [
+        Job('solist.insert.' + nm, C, 'h_insert', route='RG', loops=True, nloops=2, defines=['C12_LIST', 'L_INSERT', 'MULTI=%d' % mv], timeout=600,
+            target='concurrent_unordered_base::internal_insert + search_after + try_insert + list_node::next/set_next/try_set_next (any list, any number of threads; allow_multimapping == %s)' % ('true' if mv else 'false'), source=UB)
+        for nm, mv in (('unique', 0), ('multi', 1))
+    ] + [
+        Job('range.' + nm, C, 'h_range_' + nm, route='RG', loops=True, nloops=1, defines=['C12_LIST', 'L_RANGE'], timeout=900,
+            target='concurrent_unordered_base::const_range_type ' + what + ' + set_midpoint + begin/end/empty + first_value_node (under concurrent inserts and bucket initialisations)', source=UB)
+        for nm, what in (('split', 'splitting constructor'), ('ctor', 'constructor from a container'))
+    ] + [
+        Job('walk.' + nm, C, 'h_' + h, route='RG', loops=True, nloops=nl, defines=['C12_LIST', 'L_FIND'], timeout=300, target=tg, source=UB)
+        for nm, h, nl, tg in (('first_value_node', 'fvn', 1, 'concurrent_unordered_base::first_value_node (any list, concurrent inserts)'),
+                              ('iterator_increment', 'inc', 1, 'solist_iterator::operator++ (any list, concurrent inserts)'),
+                              ('internal_find', 'find', 1, 'concurrent_unordered_base::internal_find (any list, concurrent inserts)'),
+                              ('internal_equal_range', 'equal_range', 3, 'concurrent_unordered_base::internal_equal_range + first_value_node (any list, concurrent inserts; unique and multi)'))
+    ] + [
+        Job('skip.level', C, 'h_level', route='LF', defines=['C12_SKIP', 'SK_LEVEL'], target='concurrent_geometric_level_generator::operator() (every engine value)', source=SK),
+        Job('skip.head', C, 'h_head', route='RG', defines=['C12_SKIP', 'SK_HEAD'], target='concurrent_skip_list::create_head_if_necessary + get_head (any number of threads)', source=SK),
+    ] + [
+        Job('skip.find_position.' + nm, C, 'h_find_position_' + nm, route='RG', loops=True, nloops=1, defines=['C12_SKIP', 'SK_FIND'], timeout=300,
+            target='concurrent_skip_list::internal_find_position (%s overload) + skip_list_node::next/height (any level, any list, concurrent inserts)' % nm, source=SK)
+        for nm in ('key', 'node')
+    ] + [
+    ] + [
+        Job('skip.insert_node.level0.' + nm, C, 'h_skip_insert', route='RG', loops=True, nloops=5, defines=['C12_SKIP', 'SK_INS', 'SK_L0', 'MULTI=%d' % mv], timeout=900, unwind=10,
+            target='concurrent_skip_list::internal_insert_node + found + skip_list_node::set_next/set_index_number: the level-0 link (membership) (any number of threads; allow_multimapping == %s)' % ('true' if mv else 'false'), source=SK)
+        for nm, mv in (('unique', 0), ('multi', 1))
+    ] + [
+        Job('skip.insert_node.upper.' + nm, C, 'h_skip_insert', route='RG', loops=True, nloops=5, defines=['C12_SKIP', 'SK_INS', 'MULTI=%d' % mv], timeout=1800, unwind=10,
+            target='concurrent_skip_list::internal_insert_node: the link at one arbitrary upper level (any number of threads; allow_multimapping == %s)' % ('true' if mv else 'false'), source=SK)
+        for nm, mv in (('unique', 0), ('multi', 1)) if ctx.tier == 'thorough'     # 5-10 min each (measured 450-520 s, three in parallel): thorough tier only
+    ] + [
+        Job('solist.bucket', C, 'h_bucket', route='RG', loops=True, nloops=1, defines=['C12_LIST', 'L_BUCKET'], timeout=300,
+            target='concurrent_unordered_base::get_bucket + init_bucket (segment-table entry of one arbitrary bucket and of its parent; any number of threads)', source=UB),
+        Job('solist.prepare_bucket', C, 'h_prepare', route='LW', unwind=66, defines=['C12_LIST', 'L_PREPARE'], timeout=300,
+            target='concurrent_unordered_base::prepare_bucket (every power-of-two bucket count)', source=UB),
+        Job('solist.dummy', C, 'h_dummy', route='RG', loops=True, nloops=2, defines=['C12_LIST', 'L_DUMMY'], timeout=600,
+            target='concurrent_unordered_base::insert_dummy_node + try_insert (any list, any number of threads initialising the bucket)', source=UB),
     ]
     return {
         'jobs': jobs, 'sliced': sliced, 'fired': fired,
-        'trusted': ['__builtin_clzl as modelled by CBMC', 'rely for my_bucket_count: other threads only replace a power of two by a larger power of two (the guarantee proved for rehash and adjust_table_size; reserve() shifts left from the current value)',
-                    'SC atomics'],
-        'drops': ['template static member table -> C array', 'constexpr', 'std::atomic -> ATOMIC_*_AT sites'],
-        'not_decided': ['lock-free list insertion (try_insert CAS on a heap-shaped list)', 'dummy-node initialisation races', 'skip list (concurrent_map/set): linking, fully_linked, level generator', 'traversal sees each element once',
-                        'reserve() (float loop)', 'regular() discards hash bit 63: two hashes differing only there share an order key (harmless through the key-equality re-check)'],
-        'assumptions': ['bucket counts up to 2^62'],
+        'trusted': [
+            '__builtin_clzl as modelled by CBMC', 'SC atomics',
+            'rely for my_bucket_count: other threads only replace a power of two by a larger power of two (the guarantee proved for rehash and adjust_table_size; reserve() shifts left from the current value)',
+            'list model (jobs solist.*, walk.*, range.*, skip.*): nodes are handles with immutable attributes (order key / key, height, equivalence to the key at hand) and a ghost rank = place in the list once linked; '
+            'every access to a next pointer of a linked node is preceded by arbitrary interference constrained by the list invariant instantiated at the word read and at ONE arbitrary other node W '
+            '(sorted along the pointer; W not strictly between the node and its successor; distinct ranks; rank order implies key order). That the per-pointer guarantee proved at each linking CAS re-establishes '
+            'this invariant for the whole chain (transitivity along the chain) is the induction of the rely/guarantee method, not a CBMC obligation',
+            'rely, unique-key split-ordered list: an equivalent node W is linked only while this thread\'s node is not, and then behind every linked node whose order key is <= the key\'s (guarantees "C12.unique" of solist.insert.unique)',
+            'rely, dummy nodes: a node with a bucket\'s dummy key is linked only while no other node with that key is linked (guarantee "C12.dummy" of solist.dummy)',
+            'rely, segment table: an entry is null or the bucket\'s one linked dummy node and never changes once set (guarantee of solist.bucket); bucket 0 is set once the container holds an element',
+            'rely, skip list: a node with key K is linked at level 0 of a unique-key list only while no other node with that key is linked; my_max_height only grows, <= max_level; my_head_ptr is set once',
+            'ghost ranks are 8-bit: ranks are only compared, every obligation mentions far fewer than 2^8 of them, so any order-isomorphic embedding is as good as the reals',
+            'stubs with the contract proved elsewhere: prepare_bucket (solist.bucket / solist.prepare_bucket), split_order_key_regular/dummy and get_parent (sokey.order), insert_dummy_node (solist.dummy), adjust_table_size (bcount.adjust), '
+            'first_value_node inside the range jobs (walk.first_value_node), internal_find_position inside skip.insert_node (skip.find_position.*), create_head_if_necessary (skip.head)',
+            'stub WITHOUT a proof of its contract: fill_prev_curr_arrays inside skip.insert_node (per level: prev is the head or compares before the key, curr is null or does not) - its loop over the levels is not under contract yet',
+            'node factories / disposal (create_node, create_dummy_node, destroy_node, create_head_node, delete_node) and the hash / key-equality functors (equal keys hash alike; the functor is a function of the key)',
+            'reverse_bits inside set_midpoint as an uninterpreted function with reverse_bits(b) == dummy key of bucket b', 'std::minstd_rand yields values in [1, 2^31-2]',
+        ],
+        'drops': ['template static member table -> C array', 'constexpr', 'std::atomic -> ATOMIC_*_AT sites', 'static_assert -> RG_NOP', 'std::pair / braced returns -> C structs', 'comparator objects -> a tag (less / not_greater)',
+                  'std::array position arrays of the skip list -> accessor macros ARR_RD/ARR_WR/ARR_REF', 'reference members/parameters -> pointers', 'iterator objects -> the node they hold'],
+        'not_decided': ['quick tier: the upper-level links of skip list internal_insert_node (jobs skip.insert_node.upper.*, 5-10 min each) run in the thorough tier only', 'skip list: fill_prev_curr_arrays (the descent over the levels) is used through an unproved contract; the index_number tie-break among equal keys at upper levels of a multi skip list (order of equal keys across levels); '
+                        'lookups of the skip list (internal_find_multi/unique, lower/upper_bound, equal_range) and its iterator/range; facts about upper levels are proved for ONE arbitrary level at a time with the other levels of the position arrays fixed to (head, null)',
+                        'unordered: internal_equal_range encloses EVERY equivalent element (contiguity of equal keys in multi containers); the split point of a range lies at or before the range end (needs the reverse_bits/get_parent arithmetic of set_midpoint); '
+                        'unsafe_erase/extract/merge/rehash-by-copy paths; reserve() (float loop); internal_insert_value / emplace wrappers (node ownership after a failed insert: only the flag and the remaining_node are decided)',
+                        'termination / lock-freedom of the retry loops (only: a step moves strictly forward; the linking CAS expects the value last read)',
+                        'regular() discards hash bit 63: two hashes differing only there share an order key (harmless through the key-equality re-check)',
+                        'weak memory: all atomics are taken as sequentially consistent (the published node\'s fields are written before the releasing CAS; not modelled)'],
+        'assumptions': ['bucket counts up to 2^62', 'skip list keys: Key = uint16_t with std::less (template instantiation); unordered keys: size_t with an arbitrary hash/equality functor pair',
+                        'lists of fewer than 2^8 distinguishable positions per obligation (ghost ranks)'],
     }
 
 
